@@ -671,7 +671,10 @@ func selftest(args []string) int {
 	work, _ := os.MkdirTemp("/tmp", "verif-selftest-")
 	tmpDirs = append(tmpDirs, work)
 	defer os.RemoveAll(work)
-	type target struct{ world, profile, prop string }
+	type target struct {
+		world, profile, prop string
+		runs, perProc        int
+	}
 	var targets []target
 	seen := map[string]bool{}
 	ids := make([]string, 0, len(plans))
@@ -684,7 +687,7 @@ func selftest(args []string) int {
 			k := p.World + "/" + p.Profile
 			if !seen[k] {
 				seen[k] = true
-				targets = append(targets, target{p.World, p.Profile, id})
+				targets = append(targets, target{p.World, p.Profile, id, p.QuickRuns, p.PerProc})
 			}
 		}
 	}
@@ -696,6 +699,11 @@ func selftest(args []string) int {
 	}
 	bad := 0
 	for _, tg := range targets {
+		runs := min(runs, tg.runs) // (the enumerating profiles have few, large base scenarios)
+		chunk := 100               // runs per process: the goroutines of finished bubbles cannot be reclaimed
+		if tg.perProc > 0 {
+			chunk = min(chunk, tg.perProc)
+		}
 		type res struct {
 			name string
 			h    []uint64
@@ -709,21 +717,23 @@ func selftest(args []string) int {
 				wg.Add(1)
 				go func(procs, rep int) {
 					defer wg.Done()
-					outFile := filepath.Join(work, fmt.Sprintf("st-%s-%s-%d-%d.json", tg.world, tg.profile, procs, rep))
-					env := []string{"VERIF_WORLD=" + tg.world, "VERIF_PROFILE=" + tg.profile, "VERIF_PROPERTY=" + tg.prop, "VERIF_TIER=quick",
-						"VERIF_SEED=424242", "VERIF_FROM=0", fmt.Sprintf("VERIF_TO=%d", runs), "VERIF_RUNHASH=1",
-						"VERIF_REPLAY_DIR=" + work, fmt.Sprintf("GOMAXPROCS=%d", procs)}
-					out, err := runWorker(bin, env, outFile, 20*time.Minute)
 					r := res{name: fmt.Sprintf("GOMAXPROCS=%d#%d", procs, rep)}
-					if err != nil {
-						r.err = err.Error() + "\n" + tailStr(out, 2000)
-					} else {
-						b, _ := os.ReadFile(outFile)
-						var s summary
-						_ = json.Unmarshal(b, &s)
-						r.h = s.RunHashes
-						if s.Harness != "" {
-							r.err = s.Harness
+					for from := 0; from < runs && r.err == ""; from += chunk {
+						outFile := filepath.Join(work, fmt.Sprintf("st-%s-%s-%d-%d-%d.json", tg.world, tg.profile, procs, rep, from))
+						env := []string{"VERIF_WORLD=" + tg.world, "VERIF_PROFILE=" + tg.profile, "VERIF_PROPERTY=" + tg.prop, "VERIF_TIER=quick",
+							"VERIF_SEED=424242", fmt.Sprintf("VERIF_FROM=%d", from), fmt.Sprintf("VERIF_TO=%d", min(runs, from+chunk)), "VERIF_RUNHASH=1",
+							"VERIF_REPLAY_DIR=" + work, fmt.Sprintf("GOMAXPROCS=%d", procs)}
+						out, err := runWorker(bin, env, outFile, 20*time.Minute)
+						if err != nil {
+							r.err = err.Error() + "\n" + tailStr(out, 2000)
+						} else {
+							b, _ := os.ReadFile(outFile)
+							var s summary
+							_ = json.Unmarshal(b, &s)
+							r.h = append(r.h, s.RunHashes...)
+							if s.Harness != "" {
+								r.err = s.Harness
+							}
 						}
 					}
 					mu.Lock()
